@@ -48,6 +48,9 @@ SHAPES = {
     "big": [("t2.jsonl", "big"), ("t1.jsonl", "tiny")],
     "rev": [("t4.jsonl", "mid"), ("t2.jsonl", "tiny"), ("t1.jsonl", "tiny"), ("zzz.jsonl", "mid")],
 }
+# "reuse": the compute phase logs ONE dict object three times, mutating it in between (a progress record), on streams that
+# CI normalisation returns unchanged: the sequential loop serialises at call time, so the capture must snapshot too
+SHAPES["reuse"] = [("gel.jsonl", "reuse"), ("gel.jsonl", "reuse"), ("custom.jsonl", "reuse"), ("t1.jsonl", "tiny")]
 SIZES = {"tiny": 1, "mid": 200, "big": 70 * 1024}
 
 
@@ -84,7 +87,13 @@ def make_standin(shape, computed):
         cur = store.w.get(own, 0.0) if store is not None else 0.0
         deltas = [ProposedDelta("node", "own-" + agent, "weight", 0.25 if cur == 0.0 else 0.5, op_idx=None, idx=0),
                   ProposedDelta("node", "shared", "weight", 0.125, op_idx=None, idx=1)]
+        progress = {"turn": turn, "agent": agent, "step": 0, "note": "reused"}
         for i, (stream, size) in enumerate(shape):
+            if size == "reuse":
+                progress["step"] = i
+                append_jsonl(stream, progress)
+                progress["note"] = "after-%d" % i
+                continue
             append_jsonl(stream, {"turn": turn, "agent": agent, "i": i, "text": text, "pad": "p" * SIZES[size], "ms": 5.0})
         utter = "u:%s:%s" % (agent, text)
         t4 = types.SimpleNamespace(approved_deltas=deltas, rejected_ops=[], reasons=[], metrics={"counts": {"approved": len(deltas)}})
@@ -362,18 +371,21 @@ def real_pipeline_case(scratch, world="W3"):
 
 def cases(thorough):
     out = []
-    shapes = list(SHAPES) if thorough else ["std", "multi", "none", "big"]
+    shapes = list(SHAPES) if thorough else ["std", "multi", "none", "big", "reuse"]
     for n in range(1, 4):
         for idxs in itertools.product(range(len(SUBSETS)), repeat=n):
             if not thorough and n >= 2 and any(i > 4 for i in idxs):
                 continue  # quick: 2-3 agents over {}, {G1}, {G2}, {G3}, {G1,G2}
-            agents = AGENTS[:n]
+            # task lists are NOT sorted by agent id (the commit order must be the task order, not an id order)
+            agents = {1: ["B"], 2: ["B", "A"], 3: ["C", "A", "B"]}[n]
             graphs = {a: SUBSETS[i] for a, i in zip(agents, idxs)}
             for workers in ((2, 3, 6) if thorough else (2, 6)):   # max_workers <= 1 closes the gate (no batch path)
                 for sh in shapes:
                     if not thorough and n == 3 and sh != "std":
                         continue
                     if not thorough and n == 2 and sh == "big":
+                        continue
+                    if not thorough and sh == "reuse" and any(i > 2 for i in idxs):
                         continue
                     out.append({"kind": "standin", "agents": agents, "graphs": graphs, "workers": workers, "shape": sh,
                                 "cadence": 1})
